@@ -78,6 +78,7 @@ Permitted(c, s) ==
     CASE s = "ESTABLISHED" /\ TypeOf(c) = OPEN -> {<<5, {3}>>, <<6, {}>>} \cup OpenErr(c)   \* an OPEN on an established session may be ignored
       [] s = "ESTABLISHED" /\ c = "UPD-tolerated" -> {<<3, {}>>}                            \* RFC 7606 prefers treat-as-withdraw
       [] s \in {"OPENSENT", "CONNECT"} /\ TypeOf(c) = UPDATE -> {<<3, {}>>}                  \* decoded before any capability is negotiated: may not parse
+      [] s = "OPENCONFIRM" /\ c \in {"UPD-reset", "UPD-tolerated"} -> {<<3, {}>>}             \* both unexpected (5/2) and malformed (3/x): either names the error
       [] OTHER -> {}
 
 Fatal(c, s) == Required(c, s) # {} \/ c \in {"EOF", "NOTIF"}
